@@ -336,6 +336,16 @@ func genConn(t *rapid.T, service string, kind string) (connCase, string) {
 		}
 	}
 	c.End = rapid.SampledFrom([]string{"close", "close", "close", "reset"}).Draw(t, "end")
+	if !c.UDP && c.SSH == nil && rapid.IntRange(0, 7).Draw(t, "stays") == 0 {
+		// the client stays connected and silent after a prefix of its dialogue (possibly
+		// before its first byte): everything else must go on being served meanwhile
+		c.Units = c.Units[:rapid.IntRange(0, len(c.Units)).Draw(t, "prefix")]
+		c.Cuts = nil
+		if c.Seg == "cuts" {
+			c.Seg = "units"
+		}
+		c.End = "open"
+	}
 	return c, note
 }
 
@@ -393,7 +403,7 @@ func TestScenarios(t *testing.T) {
 		}
 		return
 	}
-	r.Rule("24 director-less services in one lab child process running the real server; per case one service x {grammar dialogue, mutated dialogue (truncate, delete/duplicate/swap unit, bit flip, insert, boundary length fields, splice, 5-60x repeat), raw bytes with protocol magics} x segmentation {per unit, single write, random cuts, 1-byte dribble} x 1..4 concurrent connections to the same service instance with a drawn step interleaving, ended by close or reset; ssh also through a real ssh client with generated channel/request payloads (incl. 1-3 byte and oversized length prefixes); oracle = child alive (no panic:/fatal error: banner, no signal), echo probe served, the services used by the scenario still serve reference dialogues on new connections like a fresh process (>= half its reply bytes and events), heap not growing while the client is silent; recovered per-connection panics are allowed; non-trivial = the service accepted at least one unit beyond its greeting (>=1 event or reply); distinct by scenario")
+	r.Rule("24 director-less services (plus one port shared by cwmp, docker and http) in one lab child process running the real server; per case one service x {grammar dialogue, mutated dialogue (truncate, delete/duplicate/swap unit, bit flip, insert, boundary length fields, splice, 5-60x repeat), raw bytes with protocol magics} x segmentation {per unit, single write, random cuts, 1-byte dribble} x 1..4 concurrent connections to the same service instance with a drawn step interleaving, ended by close or reset, or (1 in 8) left open and silent after a prefix of the dialogue; ssh also through a real ssh client with generated channel/request payloads (incl. 1-3 byte and oversized length prefixes); oracle = child alive (no panic:/fatal error: banner, no signal), echo probe served, the services used by the scenario still serve reference dialogues on new connections like a fresh process (>= half its reply bytes and events), heap not growing while the client is silent; recovered per-connection panics are allowed; non-trivial = the service accepted at least one unit beyond its greeting (>=1 event or reply); distinct by scenario")
 	if refs, err := healthBaselines(); err == nil {
 		var parts []string
 		for _, s := range svc.AllServices {
